@@ -130,9 +130,12 @@ func (zns *ZnPMServer) StartMaster(connUrl string, cfg ZnPMServerConfig) error {
 		return err
 	}
 
-	// since ZnFPMServer only accepts tcp and unix, the net.Listener MUST
-	// be TCPListener
-	ln := l.(*net.TCPListener)
+	// ZnFPMServer accepts tcp:// and unix://: both kinds of listener can hand their
+	// socket over to the child processes
+	ln, ok := l.(fileListener)
+	if !ok {
+		return fmt.Errorf("不支持的监听类型：%s", network)
+	}
 
 	log.Print("即将打开父-子进程通信通道")
 	p, err := CreateNamedPipe()
@@ -187,8 +190,15 @@ func (zns *ZnPMServer) StartMaster(connUrl string, cfg ZnPMServerConfig) error {
 	return l.Close()
 }
 
+// fileListener - a listener (*net.TCPListener, *net.UnixListener) whose socket can be passed
+// to child processes as a file
+type fileListener interface {
+	net.Listener
+	File() (*os.File, error)
+}
+
 // // fork child processes
-func (zns *ZnPMServer) spawnProcess(cfg ZnPMServerConfig, l *net.TCPListener, p *pipe) error {
+func (zns *ZnPMServer) spawnProcess(cfg ZnPMServerConfig, l fileListener, p *pipe) error {
 	// prepare net.Conn file to transfer to child processes
 	lf, err := l.File()
 	if err != nil {
@@ -275,7 +285,7 @@ func (zns *ZnPMServer) readNamedPipe(pipe *pipe) {
 }
 
 // summon all writing actions into one goroutine to ensure thread-safe on writing.
-func (zns *ZnPMServer) maintainChildState(cfg ZnPMServerConfig, ln *net.TCPListener, p *pipe) {
+func (zns *ZnPMServer) maintainChildState(cfg ZnPMServerConfig, ln fileListener, p *pipe) {
 	for {
 		select {
 		case aw := <-zns.addChan:
